@@ -109,6 +109,48 @@ pub fn digit_value(digit_bytes: usize) -> BoxedStrategy<u64> {
     .boxed()
 }
 
+/// SHORT-DIVISION BOUNDARY FAMILY. A value built from binary-aligned chunks (whole digits or half
+/// digits) each of which is a small multiple of `base` or its neighbour: c_i in {0, base, 2*base,
+/// 3*base, base - 1, base + 1, uniform}. Dividing such a value by `base` digit by digit (what
+/// `div_rem_digit` does, directly or inside a radix conversion) keeps the running remainder at zero,
+/// so that the partial dividend of a step EQUALS the divisor (or misses it by one) - the boundary of
+/// every short-division fast path. `base` must be non-zero and below 2^digit_bits.
+pub fn base_aligned(sh: Shape, base: u64) -> BoxedStrategy<Pat> {
+    let db = sh.digit_bits() as usize;
+    let bytes = sh.bytes;
+    let chunk_sel = proptest::collection::vec((0u8..12, any::<u64>()), 2 * sh.n().min(64));
+    (prop_oneof![Just(db), Just(db / 2)], chunk_sel, 0usize..=2 * sh.n().min(64)).prop_map(move |(a, sel, used)| {
+        // a = chunk width in bits (a multiple of 4 and >= 4)
+        let mask: u64 = if a >= 64 { u64::MAX } else { (1u64 << a) - 1 };
+        let total = bytes * 8 / a;
+        let mut out = vec![0u8; bytes];
+        for i in 0..total.min(sel.len()).min(used.max(1)) {
+            let (k, rnd) = sel[i];
+            let c: u64 = match k {
+                0 | 1 | 2 => 0,
+                3 | 4 | 5 => base,
+                6 => base.wrapping_mul(2),
+                7 => base.wrapping_mul(3),
+                8 => base.wrapping_sub(1),
+                9 => base.wrapping_add(1),
+                10 => (rnd % 7).wrapping_mul(base),
+                _ => rnd,
+            };
+            // a multiple that does not fit the chunk is dropped (a zero chunk keeps the remainder at zero)
+            let c = if c > mask && k != 11 { 0 } else { c & mask };
+            // write chunk i (a bits, a/8 bytes when a >= 8; a = 4 only for u8 digits)
+            if a >= 8 {
+                let nb = a / 8;
+                out[i * nb..(i + 1) * nb].copy_from_slice(&c.to_le_bytes()[..nb]);
+            } else {
+                out[i / 2] |= ((c & 0xf) as u8) << (4 * (i % 2));
+            }
+        }
+        Pat(out)
+    })
+    .boxed()
+}
+
 /// 3. every digit drawn from the extreme-value table
 pub fn digitwise(sh: Shape) -> BoxedStrategy<Pat> {
     let db = sh.digit_bytes;
